@@ -308,6 +308,31 @@ def _composition_case(rng):
     return 'S ' + ';'.join(ops)
 
 
+def _eintr_case(rng):
+    """SelectServer iterations whose select() / epoll_wait() is interrupted by a signal (I): the loop callbacks and the
+    timers that are due before the wait run, nothing else does - no sleep, no descriptor callback (a ready descriptor
+    is served by the next ordinary iteration), no second pass over the timers"""
+    ops = []
+    for _ in range(rng.choice([3, 5, 8])):
+        k = rng.random()
+        us = rng.choice([0, 0, 1, 500, 1000, 1500, 2000, 5000])
+        rep = rng.random() < 0.25 and us > 0
+        if k < 0.2:
+            ops.append('i%d,%d' % (rep, us))
+        elif k < 0.35:
+            ops += ['L%d,%d' % (rep, us), rng.choice(['I', 'x', 'y2000'])]
+        elif k < 0.6:
+            ops += ['D%d,%d' % (rep, us), 'I', 'a%d' % rng.choice([1, 700, 3000]), rng.choice(['I', 'x', 'y2000'])]
+        elif k < 0.75:
+            ops.append('I')
+        elif k < 0.9:
+            ops.append('y%d' % rng.choice([0, 500, 1500, 3000]))
+        else:
+            ops.append('a%d' % rng.choice([1, 499, 1000, 2500]))
+    ops += ['I', 'y5000', 'x']
+    return 'S ' + ';'.join(ops)
+
+
 def _busy_case(rng):
     """timers while >= MAX_EVENTS descriptors stay ready (write ends of empty pipes): the poller never sleeps, every
     iteration must still return and serve the due timers, on both back-ends"""
@@ -449,6 +474,8 @@ def gen_cases(rng, tier):
         yield _composition_case(rng)
     for _ in range(60 if quick else 2000):
         yield _busy_case(rng)
+    for _ in range(150 if quick else 8000):
+        yield _eintr_case(rng)
     for _ in range(400 if quick else 20000):
         yield _interval_case(rng)
     for _ in range(300 if quick else 20000):
